@@ -427,7 +427,12 @@ func (m *Machine) lookup(fr *frame, x *ssa.Lookup) Value {
 	}
 	kk, ok := mapKey(key)
 	if !ok {
-		panic(Unsupported{"map lookup with a non-constant key"})
+		// any key misses in an empty (or nil) map
+		if mv, isMap := base.(MapV); (isMap && len(mv.M.Vals) == 0) || IsNil(base) {
+			kk = "\x00unknown-key"
+		} else {
+			panic(Unsupported{"map lookup with a non-constant key"})
+		}
 	}
 	var val Value
 	found := false
